@@ -14,6 +14,7 @@ CONSTANTS
   NSEND = 2
   NFLIP = 0
   NOPEN = 1
+  AFSEND = "all"
   GROW = FALSE
 INVARIANT NoBad
 INVARIANT QueueBound
